@@ -112,7 +112,8 @@ where
     /// then None is returned.
     pub fn split(&self, offset: usize) -> Option<(Self, Self)> {
         let split_point = self.bounds.start.to_usize() + offset;
-        if self.data.is_char_boundary(split_point) {
+        // The split point has to be within this slice, not just within the shared data
+        if split_point <= self.bounds.end.to_usize() && self.data.is_char_boundary(split_point) {
             if let Ok(split_point_t) = T::try_from(split_point) {
                 Some((
                     Self {
